@@ -9,7 +9,12 @@ import (
 	"time"
 
 	hydrapb "github.com/hydraide/hydraide/sdk/go/hydraidego/v3/hydraidepbgo"
+	"github.com/hydraide/hydraide/app/core/filesystem"
+	"github.com/hydraide/hydraide/app/core/hydra/swamp/chronicler"
 	v2 "github.com/hydraide/hydraide/app/core/hydra/swamp/chronicler/v2"
+	"github.com/hydraide/hydraide/app/core/hydra/swamp/metadata"
+	"github.com/hydraide/hydraide/app/core/hydra/swamp/treasure"
+	"github.com/hydraide/hydraide/app/core/hydra/swamp/treasure/guard"
 	"github.com/hydraide/hydraide/app/core/hydra/swamp/chronicler/v2/migrator"
 	"github.com/hydraide/hydraide/app/name"
 	"github.com/hydraide/hydraide/app/zzsim/simdisk"
@@ -54,10 +59,23 @@ func genC23(seed uint64, tier string) Case {
 	c.Cfg["fault_kind"] = int64(r.intn(3))
 	nsw := 1 + r.intn(4)
 	n := 2 + r.intn(30)
+	wTick := 8
+	if r.chance(3, 10) {
+		// profile that makes the legacy writer split chunks and re-store modified records: several versions of a
+		// key end up on disk, and the migration must pick one the legacy engine could load
+		c.Cfg["chunk"] = 200
+		c.Cfg["fault"] = 0
+		nsw = 1 + r.intn(2)
+		n = 12 + r.intn(20)
+		wTick = 30
+	}
+	if r.chance(1, 3) {
+		c.Cfg["direct"] = int64(1 + r.intn(3))
+	}
 	for i := 0; i < n; i++ {
 		sw := int64(r.intn(nsw))
 		key := int64(r.intn(6))
-		switch r.pick(60, 20, 12, 8) {
+		switch r.pick(60, 20, 12, wTick) {
 		case 0, 1:
 			c.Ops = append(c.Ops, Op{K: "set", A: []int64{sw, key, int64(1 + r.intn(len(valueKinds)-1)), int64(r.intn(6)), int64(r.intn(32))}})
 		case 2:
@@ -128,9 +146,41 @@ func runC23(t *testing.T, c Case) (res Result) {
 			v = &r
 			return
 		}
+		// --- 1b. further versions written through the legacy chronicler itself: records saved again by an object
+		// that carries no file pointer are appended as new records, so a key occurs twice in one chunk file (the
+		// legacy load keeps the later one) or in two chunk files
+		if nd := c.cfg("direct", 0); nd > 0 {
+			dr := newRng(c.Seed, "direct")
+			prev := swapDisk(disk)
+			for b := int64(0); b < nd; b++ {
+				n := names[dr.intn(4)]
+				folder := name.Load(n).GetFullHashPath(simRoot+"/data", 1, 1, 1000)
+				if len(disk.Walk(folder)) == 0 {
+					continue // this swamp was never written by the legacy server
+				}
+				ch := chronicler.New(folder, c.cfg("chunk", 8192), 1, filesystem.New(), metadata.New(folder))
+				ch.DontSendFilePointer()
+				var batch []treasure.Treasure
+				for j := 1 + dr.intn(3); j > 0; j-- {
+					key := keyName(int64(dr.intn(6)))
+					tr := treasure.New(nil)
+					g := tr.StartTreasureGuard(false, guard.BodyAuthID)
+					tr.BodySetKey(g, key)
+					tr.SetContentString(g, fmt.Sprintf("direct-%d-%d", b, j))
+					tr.ReleaseTreasureGuard(g)
+					batch = append(batch, tr)
+				}
+				id := simrt.GoID(func() { ch.Write(batch) })
+				simrt.JoinIDs([]int32{id}, time.Minute)
+				modified = true
+			}
+			swapDisk(prev)
+		}
 		// --- 2. what does the legacy engine load?
-		readAll := func(v2engine bool) (map[string]mswamp, string) {
-			s := startServerEngine(disk, 3600, 1, v2engine)
+		var readAllOn func(d *simdisk.Disk, v2engine bool) (map[string]mswamp, string)
+		readAll := func(v2engine bool) (map[string]mswamp, string) { return readAllOn(disk, v2engine) }
+		readAllOn = func(d *simdisk.Disk, v2engine bool) (map[string]mswamp, string) {
+			s := startServerEngine(d, 3600, 1, v2engine)
 			k := &gwClient{srv: s, island: 1, timeout: 120 * time.Second}
 			outm := map[string]mswamp{}
 			for _, n := range names {
@@ -211,6 +261,7 @@ func runC23(t *testing.T, c Case) (res Result) {
 				disk.SetFault(seq, f)
 			}
 		}
+		legacyImage := disk.Clone() // the legacy folders as the migration finds them
 		rr, rerr, finished := runMigration(disk)
 		faultFired = len(disk.Stats().FiredSeqs) > 0
 		disk.ClearFaults()
@@ -235,13 +286,59 @@ func runC23(t *testing.T, c Case) (res Result) {
 			}
 			return
 		}
+		var possible map[string]map[string][]*mrec // swamp -> key -> every record the legacy engine can load for it (nil entry = absent)
 		if rr.DuplicateKeys > 0 {
-			// the legacy folder holds several versions of one key in different chunk files (the legacy writer can
-			// lose a record's file pointer when it splits a chunk and then stores the next modification as a new
-			// record). Which version the legacy engine loads then depends on its map iteration order, so "what the
-			// legacy engine would load" is not a single state: such runs are not judged.
-			outcome = "ambiguous_legacy_duplicates"
-			return
+			// the legacy folder holds several versions of one key (the legacy writer can lose a record's file
+			// pointer when it splits a chunk and then stores the next modification as a new record). Across chunk
+			// files the version the legacy engine loads depends on its map iteration order (the last file wins), so
+			// "what the legacy engine would load" is a set of states. It is enumerated exactly: the legacy load is
+			// repeated with the file order rotated so that every file is the last one once.
+			if len(rr.FailedSwamps) > 0 {
+				outcome = "ambiguous_legacy_duplicates"
+				return
+			}
+			nfiles := 0
+			for _, p := range legacyImage.Walk(simRoot + "/data") {
+				if !strings.HasSuffix(p, ".hyd") {
+					nfiles++
+				}
+			}
+			if nfiles > 48 {
+				outcome = "ambiguous_legacy_duplicates"
+				return
+			}
+			possible = map[string]map[string][]*mrec{}
+			var states []map[string]mswamp
+			for rot := 0; rot < nfiles; rot++ {
+				simrt.SetMapRotate(int64(rot))
+				st, e := readAllOn(legacyImage.Clone(), false)
+				simrt.SetMapRotate(-1)
+				if e != "" {
+					r := violation("legacy_read_error", "%s", e)
+					v = &r
+					return
+				}
+				states = append(states, st)
+			}
+			for _, st := range states {
+				for sw, recs := range st {
+					if possible[sw] == nil {
+						possible[sw] = map[string][]*mrec{}
+					}
+					for k := range recs {
+						if _, ok := possible[sw][k]; !ok {
+							possible[sw][k] = nil
+						}
+					}
+				}
+			}
+			for sw, keys := range possible {
+				for k := range keys {
+					for _, st := range states {
+						possible[sw][k] = append(possible[sw][k], st[sw][k]) // nil when that load does not have the key
+					}
+				}
+			}
 		}
 		failed := map[string]bool{} // swamp names whose migration was reported as failed
 		for _, f := range rr.FailedSwamps {
@@ -265,7 +362,61 @@ func runC23(t *testing.T, c Case) (res Result) {
 			v = &r
 			return
 		}
-		if len(failed) == 0 {
+		if len(failed) == 0 && possible != nil {
+			// every migrated record must be one the legacy engine can load, and nothing else may appear
+			var sws []string
+			for sw := range possible {
+				sws = append(sws, sw)
+			}
+			for sw := range v2state {
+				if possible[sw] == nil {
+					sws = append(sws, sw)
+				}
+			}
+			sort.Strings(sws)
+			for _, sw := range sws {
+				var ks []string
+				for k := range possible[sw] {
+					ks = append(ks, k)
+				}
+				for k := range v2state[sw] {
+					if _, ok := possible[sw][k]; !ok {
+						ks = append(ks, k)
+					}
+				}
+				sort.Strings(ks)
+				for _, k := range ks {
+					got := v2state[sw][k]
+					okAny := false
+					var seen []string
+					for _, want := range possible[sw][k] {
+						switch {
+						case want == nil && got == nil:
+							okAny = true
+						case want != nil && got != nil:
+							if cls, _ := sameRecord(got, want); cls == "" {
+								okAny = true
+							}
+						}
+						if want == nil {
+							seen = append(seen, "<absent>")
+						} else {
+							seen = append(seen, want.valueString())
+						}
+					}
+					if !okAny {
+						gs := "<absent>"
+						if got != nil {
+							gs = got.valueString()
+						}
+						r := violation("migrated_record_is_none_of_the_versions_the_legacy_engine_loads", "swamp %s key %q: migrated file loads %s, the legacy engine loads (over every chunk-file order) %v", sw, k, gs, seen)
+						v = &r
+						return
+					}
+				}
+			}
+			modified = true
+		} else if len(failed) == 0 {
 			if cls, det := compareStates(v2state, v1state); cls != "" {
 				what := ""
 				if fault == 2 {
